@@ -16,6 +16,7 @@ func init() {
 	register(&PropDef{ID: "C14", Title: "Pipeline tasks honour wait lists and never run after a failed prerequisite", Rules: rulesC14,
 		Explanation: "Decided (structural necessary conditions): R1 in the runner the body (Sandbox.Run) is dominated by the nil edge of waitForTasks, and on its non-nil edge the error is appended to the task's scope on every path (the refused task ends failed); R2 inside the wait loop every iteration that continues (back edge) has established: the name was found, that task's Wait() returned nil, and its error list is empty; the nil return is outside the loop; R3 NewTask arms the completion latch on every path, Task.Close releases it exactly once on every path, Task.Wait waits for it, runGo defers Close before anything can return, and Runner.Run starts the task goroutine on every path after a successful Create (and only then); R4 Create registers/returns a task only on the nil edge of validWaitList, and validWaitList returns an error for a name missing from the table; R5 after a task is entered in the table (or the manager's group is incremented) no path returns an error without undoing it; R6 the terminal loop runs one command at a time (synchronous call) and an iteration continues only if the command returned nil, otherwise the error is appended and the loop returns; R7 TaskManager.Wait waits for the manager's group on every path before it takes the table lock, then returns the accumulated task.Wait() errors; the task table is only touched under its lock. " +
 			"R8 every wait name pip:run produces carries the task namespace of the submitting scope (no 'absolute' spelling): that prefix is what keeps a nested submission from waiting for the task whose body it runs in, which would never finish. " +
+			"Added in round 4: R3 also recognises a channel latch (made in the constructor, closed exactly once by Close, received from by Wait); R4 accepts registration where the task's wait list is known to be empty (len == 0 of WaitList() or of the same data read from the constructor argument the accessor returns). " +
 			"NOT decided: ordering and timing of really concurrent task bodies at run time; sandbox behaviour.",
 	})
 }
